@@ -7,41 +7,51 @@
 (***************************************************************************)
 EXTENDS Scheduler, Json, TLC
 
-CONSTANTS K,                 \* number of candidates
-          NodeModes, EdgeModes, AttModes, PortModes,   \* subsets of 0..3
+CONSTANTS K,                 \* number of candidates per tick
+          Ticks,             \* number of consecutive ticks on the SAME scheduler (reservations must not outlive a tick)
+          NodeModes, EdgeModes, AttModes, PortModes,   \* subsets of 0..3 (first resource of each class)
+          NodeModes2, EdgeModes2, AttModes2, PortModes2, \* second resource of each class ({0} = unused)
           WarpChoices,       \* subset of {0, 1}
           MaskChoices,       \* subset of {0,1,2}: 0 = empty mask, 1 = {b0}, 2 = {b1}
           Export
 
-VARIABLES cls,      \* sequence of K class records (the input; fixed once picked)
+VARIABLES tick,     \* current tick number (1..Ticks)
+          past,     \* class sequences of the finished ticks (history, for export)
+          cls,      \* sequence of K class records (the input; fixed once picked)
           i,        \* next candidate to reserve (1-based)
           marks, frontier,          \* Radix / Legacy scheduler state
           accR, accL,               \* decisions so far
           blk                       \* attributed blockers per candidate (Radix run)
-vars == <<cls, i, marks, frontier, accR, accL, blk>>
+vars == <<tick, past, cls, i, marks, frontier, accR, accL, blk>>
 
-Classes == [n : NodeModes, e : EdgeModes, a : AttModes, p : PortModes, w : WarpChoices, m : MaskChoices]
+Classes == [n : NodeModes, e : EdgeModes, a : AttModes, p : PortModes, w : WarpChoices, m : MaskChoices,
+            n2 : NodeModes2, e2 : EdgeModes2, a2 : AttModes2, p2 : PortModes2]
 
 R(mode) == mode \in {1, 3}
 W(mode) == mode \in {2, 3}
 FpOf(c) ==
   LET w == c.w IN
-  FP(IF R(c.n) THEN {<<w, "n">>} ELSE {}, IF W(c.n) THEN {<<w, "n">>} ELSE {},
-     IF R(c.e) THEN {<<w, "e">>} ELSE {}, IF W(c.e) THEN {<<w, "e">>} ELSE {},
-     IF R(c.a) THEN {<<w, "a">>} ELSE {}, IF W(c.a) THEN {<<w, "a">>} ELSE {},
-     IF R(c.p) THEN {<<w, "p">>} ELSE {}, IF W(c.p) THEN {<<w, "p">>} ELSE {},   \* port: 1=in, 2=out, 3=both
+  FP((IF R(c.n) THEN {<<w, "n">>} ELSE {}) \cup (IF R(c.n2) THEN {<<w, "n2">>} ELSE {}),
+     (IF W(c.n) THEN {<<w, "n">>} ELSE {}) \cup (IF W(c.n2) THEN {<<w, "n2">>} ELSE {}),
+     (IF R(c.e) THEN {<<w, "e">>} ELSE {}) \cup (IF R(c.e2) THEN {<<w, "e2">>} ELSE {}),
+     (IF W(c.e) THEN {<<w, "e">>} ELSE {}) \cup (IF W(c.e2) THEN {<<w, "e2">>} ELSE {}),
+     (IF R(c.a) THEN {<<w, "a">>} ELSE {}) \cup (IF R(c.a2) THEN {<<w, "a2">>} ELSE {}),
+     (IF W(c.a) THEN {<<w, "a">>} ELSE {}) \cup (IF W(c.a2) THEN {<<w, "a2">>} ELSE {}),
+     (IF R(c.p) THEN {<<w, "p">>} ELSE {}) \cup (IF R(c.p2) THEN {<<w, "p2">>} ELSE {}),   \* port: 1=in, 2=out, 3=both
+     (IF W(c.p) THEN {<<w, "p">>} ELSE {}) \cup (IF W(c.p2) THEN {<<w, "p2">>} ELSE {}),
      CASE c.m = 0 -> {} [] c.m = 1 -> {0} [] c.m = 2 -> {1})
 
 Cands == [k \in 1..Len(cls) |-> FpOf(cls[k])]
 
 \* candidates are picked one at a time (so the enumeration is spread over TLC's workers)
-Init == /\ cls = <<>>
+Init == /\ tick = 1 /\ past = <<>>
+        /\ cls = <<>>
         /\ i = 1 /\ marks = EmptyMarks /\ frontier = <<>>
         /\ accR = <<>> /\ accL = <<>> /\ blk = <<>>
 
 Pick == /\ Len(cls) < K
         /\ \E c \in Classes : cls' = Append(cls, c)
-        /\ UNCHANGED <<i, marks, frontier, accR, accL, blk>>
+        /\ UNCHANGED <<tick, past, i, marks, frontier, accR, accL, blk>>
 
 Reserve ==
   /\ Len(cls) = K
@@ -53,11 +63,16 @@ Reserve ==
         /\ accR' = Append(accR, r.ok) /\ accL' = Append(accL, l.ok)
         /\ blk' = Append(blk, IF r.ok THEN {} ELSE AttributedBlockers(Cands, accR, i))
   /\ i' = i + 1
-  /\ UNCHANGED cls
-Next == Pick \/ Reserve
+  /\ UNCHANGED <<tick, past, cls>>
+\* finalize_tx: the per-transaction reservation state is dropped; the next tick starts clean
+Finalize == /\ Len(cls) = K /\ i = K + 1 /\ tick < Ticks
+            /\ tick' = tick + 1 /\ past' = Append(past, cls)
+            /\ cls' = <<>> /\ i' = 1 /\ marks' = EmptyMarks /\ frontier' = <<>>
+            /\ accR' = <<>> /\ accL' = <<>> /\ blk' = <<>>
+Next == Pick \/ Reserve \/ Finalize
 Spec == Init /\ [][Next]_vars
 
-Done == i = K + 1
+Done == Len(cls) = K /\ i = K + 1
 Oracle == GreedyAdmit(Cands)
 
 \* ---- properties ---------------------------------------------------------
@@ -75,9 +90,11 @@ Inv_PredicatesAgree == (i = 1 /\ Len(cls) = K) => \A x, y \in 1..K : /\ Conflict
                                           /\ Conflicts(Cands[x], Cands[y]) = Conflicts(Cands[y], Cands[x])
                                           /\ Conflicts(Cands[x], Cands[y]) = HasConflict(MarkAll(EmptyMarks, Cands[y]), Cands[x])
 
-CaseJson == [c |-> [k \in 1..K |-> <<cls[k].n, cls[k].e, cls[k].a, cls[k].p, cls[k].w, cls[k].m>>],
+ClsJson(q) == [k \in 1..K |-> <<q[k].n, q[k].e, q[k].a, q[k].p, q[k].w, q[k].m, q[k].n2, q[k].e2, q[k].a2, q[k].p2>>]
+CaseJson == [c |-> ClsJson(cls),
+             prev |-> [t \in 1..Len(past) |-> ClsJson(past[t])],
              accR |-> accR, accL |-> accL,
              blk |-> [k \in 1..K |-> blk[k]],
              sound |-> MasksSound(Cands)]
-Inv_Export == (Export /\ Done) => PrintT(<<"CASE", ToJson(CaseJson)>>)
+Inv_Export == (Export /\ Done /\ tick = Ticks) => PrintT(<<"CASE", ToJson(CaseJson)>>)
 =============================================================================
